@@ -784,7 +784,12 @@ fn load_file(f: &str, compact: bool, out: &mut Outcome, stage: &str) -> Option<A
 }
 
 fn load_file_include(f: &str, compact: bool, dir: &TempDir, out: &mut Outcome, stage: &str) -> Option<AnnotationStore> {
-    let cfg = json_config(compact).with_use_include(true).with_workdir(dir.0.to_string_lossy().to_string());
+    // use_include is on by default; the compact documents rely on the default, the pretty ones set it explicitly
+    let cfg = if compact {
+        json_config(compact).with_workdir(dir.0.to_string_lossy().to_string())
+    } else {
+        json_config(compact).with_use_include(true).with_workdir(dir.0.to_string_lossy().to_string())
+    };
     match catch(|| AnnotationStore::from_file(f, cfg)) {
         Ok(Ok(st)) => Some(st),
         Ok(Err(e)) => {
